@@ -84,3 +84,18 @@ Theorem C03_plain_declaration : forall (P: Type) ty x ki Xi, ty <> [] ->
     map (@RoundTrip.strip (ParserBase.coord P)) Ns = [DeclTrip.dembed ty x Xi] /\ StreamLib.Ran P s s' (length le).
 Proof. exact DeclTrip.decl_run. Qed.
 Print Assumptions C03_plain_declaration.
+
+(* "specifiers shared by several declarators apply to each of them": the declaration `T x1 [= e1] , x2 [= e2] , ... ;` with ANY number of
+   declarators becomes one Decl per declarator, in source order, each named after its declarator, each with the type T spells and its
+   own initializer (proofs/DeclTrip.v: p_init_declarators_more by induction on the list, build_loop / build_one per declarator - the shared
+   specifier is handed on unchanged - and every declared name enters the scope). *)
+Theorem C03_declarator_list : forall (P: Type) ty x ki Xi ds, ty <> [] ->
+  Forall (fun kv => ParserBase.kind_in (fst kv) ParserTables.tbl_TYPE_SPEC_SIMPLE = true) ty -> DeclTrip.InitOK P ki Xi ->
+  Forall (fun d => DeclTrip.InitOK P (snd (fst d)) (snd d)) ds ->
+  forall (s: ParserBase.pstate P) le (stop: ParserBase.tok P) l0, RoundTrip.Spell P le (DeclTrip.dltoks ty x ki ds) -> StreamLib.Up P s (le ++ stop :: l0) ->
+  StreamLib.NoTD (ParserBase.scopes P s) ->
+  exists f0 Ns s', (forall f, (f0 <= f)%nat -> ParserMain.p_declaration P f s = ParserBase.Ok (Ns, s')) /\ StreamLib.Up P s' (stop :: l0) /\
+    map (@RoundTrip.strip (ParserBase.coord P)) Ns = DeclTrip.dembed ty x Xi :: map (fun d => DeclTrip.dembed ty (fst (fst d)) (snd d)) ds /\
+    StreamLib.Ran P s s' (List.length le).
+Proof. exact DeclTrip.decl_list_run. Qed.
+Print Assumptions C03_declarator_list.
